@@ -566,6 +566,45 @@ func genC19(g *G) {
 			g.Emit("btcsession", g.Pick([]string{"1-4-100", "2-4-7", "retry-1-4"}), itoa(n), itoa(np))
 		}
 	}
+	// the real app.Run booted against a fake node: configured starts, stored cursors and `latest`, intervals that do and do
+	// not divide the confirmations; the head leaves room for two ranges per domain
+	for i := 0; i < g.Count(5, 40); i++ {
+		k := int64(2 + g.Intn(6))
+		conf := int64(1 + g.Intn(14))
+		if i%2 == 0 {
+			conf = k*int64(1+g.Intn(3)) + 1 + int64(g.Intn(int(k)-1)) // not a multiple of the interval
+		}
+		doms := []string{}
+		maxStart := int64(0)
+		for j := 0; j < 3; j++ {
+			v := int64(g.Intn(60))
+			if v > maxStart {
+				maxStart = v
+			}
+			switch (i + j) % 3 {
+			case 0:
+				doms = append(doms, "c"+itoa64(v))
+			case 1:
+				doms = append(doms, "s"+itoa64(v))
+			default:
+				doms = append(doms, "L")
+			}
+		}
+		head := maxStart + 2*k + conf + int64(g.Intn(int(k)+3))
+		g.Emit("appboot", itoa64(k), itoa64(conf), itoa64(head), strings.Join(doms, ","))
+	}
+	// the session ids the EVM signing processes run under (several batches per delivery)
+	for _, sp := range []string{"n:p", "n:p;n:p", "n:p;n:p;n:p", "100:p;n:p", "n:e;n:p;41:p;n:p", "40:p;n:p;n:p;0:p;0:p", "n:e"} {
+		g.Emit("evmsigsession", "100", "60", "1-2-100-104", sp)
+	}
+	for i := 0; i < g.Count(25, 600); i++ {
+		n := 1 + g.Intn(5)
+		xs := []string{}
+		for j := 0; j < n; j++ {
+			xs = append(xs, []string{"n", "0", "40", "41", "100"}[g.Intn(5)]+":"+g.Pick([]string{"p", "p", "p", "e"}))
+		}
+		g.Emit("evmsigsession", "100", "60", []string{"1-2-100-104", "3-1-5-9", "retry-7"}[g.Intn(3)], joinOr(xs, ";"))
+	}
 	// the same delivery twice on one Executor object
 	for _, sp := range []string{"n:p", "n:p;n:p;n:p", "100:p;n:p", "n:e;n:p;41:p;n:p", "40:p;n:p;n:p;0:p;0:p"} {
 		g.Emit("evmsession2", "100", "60", "1-2-102-102", sp)
